@@ -147,3 +147,40 @@ def budget_drain_history(rng):
     # a cycle that does not resume behind the first file can never get past the first span of the second
     lines += ["igcb 0 12"] * 120 + ["#budgeted-drain"]
     return "\n".join(lines) + "\n"
+
+
+def igc_merge_history(rng):
+    """Index GC over a NON-CURRENT index file that holds the record lists of several buckets, superseded a few at a time between
+    cycles, so that a cycle finds records it freed EARLIER next to records it frees now (merging into an existing free span, in
+    both directions), with a live list behind the span; then a reopen that has to rescan the log (the skip over a merged span must
+    land exactly on the next record), and everything is read back."""
+    nb = rng.randint(4, 7)
+    buckets = rng.sample(range(1, 40), nb)
+    key = lambda b, i: "1206%02x0707%02x%02x%02x" % (b, i, i, 10 + i)
+    imax = rng.choice((100, 130, 160, 200))
+    lines = ["cfg primary=mh bits=8 imax=%d pmax=1073741824 imm=0" % imax]
+    live = {}
+    for b in buckets:                                   # one record list per flush, in this order, into the first index file
+        lines += ["put %s %s" % (key(b, 0), "61" * rng.randint(1, 4)), "flush"]
+        live[b] = 1
+    filler = [b for b in range(41, 60)]
+    for b in rng.sample(filler, max(1, imax // 22 + 2 - nb)):     # roll the log over (a one-key list takes 22 bytes): the first file becomes non-current
+        lines += ["put %s 62" % key(b, 0), "flush"]
+    order = buckets[:]
+    rng.shuffle(order)
+    keep = set(rng.sample(buckets, rng.randint(1, 2)))  # these lists stay live inside the first file
+    for b in order:
+        if b in keep:
+            continue
+        lines += ["put %s %s" % (key(b, live[b]), "63" * rng.randint(1, 3)), "flush"]
+        live[b] += 1
+        if rng.random() < 0.7:
+            lines.append("igc %d" % rng.randint(0, 1))
+    lines.append("igc %d" % rng.randint(0, 1))
+    lines.append("reopen %d" % rng.choice((1, 1, 2, 0)))
+    for b in buckets:
+        for i in range(live[b]):
+            lines.append("get " + key(b, i))
+    if rng.random() < 0.5:
+        lines += ["igc 1", "reopen 1"] + ["get " + key(b, 0) for b in buckets]
+    return "\n".join(lines) + "\n"
